@@ -604,7 +604,21 @@ fn gen_bits(rng: &mut Rng, f: &str, full: bool) -> Case {
         }
     };
     let xc = (x as u128) % p;
-    let (v, how): (Vec<u64>, &str) = match rng.below(8) {
+    let (v, how): (Vec<u64>, &str) = match rng.below(11) {
+        8..=10 => {
+            // recomposition-preserving with exactly ONE non-boolean bit: the mass of a set bit i
+            // is moved into a lower bit j (b_i = 0, b_j += 2^(i-j)); j is biased to the lowest
+            // position, whose booleanity is asserted by a different code path than the others
+            let mut b = bits_of(xc, n);
+            let set: Vec<usize> = (1..n).filter(|&i| b[i] == 1).collect();
+            if !set.is_empty() {
+                let i = *rng.pick(&set);
+                let j = if rng.chance(1, 2) { 0 } else { rng.usize(i) };
+                b[i] = 0;
+                b[j] = ((b[j] as u128 + (1u128 << (i - j))) % p) as u64;
+            }
+            (b, "nonbool-single")
+        }
         0 => (bits_of(xc, n), "honest"),
         1 | 2 | 3 => (bits_of(xc + p, n), "plus-p"),
         4 => (bits_of(xc + 2 * p, n), "plus-2p"),
